@@ -61,11 +61,25 @@ def poolBinStep (st : PoolBinDrv) (args : List String) : PoolBinDrv × String :=
         match st.minBalance with
         | some m => if cur < m then (st', s!"err LowBalance {cur} {m}") else (st', "ok")
         | none => (st', "ok")
+  | ["kbillhangup", n, h] =>
+    -- the billable keep-alive of a client that hangs up before the reply: it is handled like any other.  With a
+    -- minimum of zero (or more) any charge cuts the client off, and the pool tells the host it peers with
+    -- (`cutoff_disconnects`); without a minimum nobody is told anything.
+    if !st.running then (st, "err not-running")
+    else if !st.clients.contains n then (st, "sent disc=")
+    else match st.minBalance with
+      | some m =>
+        if 0 ≤ m ∧ 0 < st.price then (st, "sent disc=" ++ ((p.hosts.find? (·.1 == h)).map (·.2)).getD "")
+        else (st, "unpredictable")
+      | none => (st, "sent disc=")
   | ["kalive", n] =>
     if !st.running then (st, "err not-running")
     else if !st.clients.contains n then (st, "skipped-refused")
     else if st.price = 0 then (st, "err InvalidSettings")
     else (st, "ok")
+  -- a full node registering over plain HTTP has no connection to be called back on: refused, nothing registered
+  | ["hosthttp", _] => (st, "err refused")
+  | ["hoststray", _] => (st, "ok")
   | ["hostconn", c, n] => ({ st with pool := p.register n c }, "ok")
   | ["closeconn", c, _] => ({ pool := p.closeRemote c, refusing := st.refusing.filter (· != c) }, "ok")
   | ["hostmode", c, m] =>
